@@ -422,6 +422,35 @@ pub fn run(ctx: &Ctx) -> ! {
     cfg4.gen.wide_filters = true;
     cfg4.max_arg_maps = 0;
     let s_gen = corpus::drive(ctx, &uni, &cfg4, &|_| {}, &|_| {}, &on_panic);
+    // error paths: valid structure (two edges + up to two further deviations) with one or two
+    // invalidating deviations (name collisions, ill-typed filter, undefined tag, unknown property)
+    // placed before / between / after it
+    let mut cfg5 = corpus::structures_cfg(&uni, 2, vec!["Pt", "Fco", "Fcf", "Fct", "Po"], 2);
+    cfg5.gen.invalid_devs = true;
+    cfg5.max_arg_maps = 0;
+    let s_inv = corpus::drive(ctx, &uni, &cfg5, &|_| {}, &|_| {}, &on_panic);
+    let mut cfg6 = CorpusCfg::new(ctx.tier.pick(2, 3));
+    cfg6.gen.invalid_devs = true;
+    cfg6.gen.naming_devs = false;
+    cfg6.max_arg_maps = 0;
+    cfg6.keep = Some(std::sync::Arc::new(|q: &qast::Query| {
+        let t = q.text();
+        t.contains("undefined_tag") || t.contains("nope") || t.contains("$bad") || {
+            // a duplicated explicit name
+            let mut names: Vec<&str> = t.split("(name: \"").skip(1).filter_map(|x| x.split('"').next()).collect();
+            let n = names.len();
+            names.sort();
+            names.dedup();
+            names.len() < n
+        }
+    }));
+    let s_inv2 = corpus::drive(ctx, &uni, &cfg6, &|_| {}, &|_| {}, &on_panic);
+    tally.parsed.fetch_add(s_inv.queries_done + s_inv2.queries_done, Ordering::Relaxed);
+    tally.ok.fetch_add(s_inv.compiled + s_inv2.compiled, Ordering::Relaxed);
+    tally.err.fetch_add(s_inv.rejected + s_inv2.rejected, Ordering::Relaxed);
+    per_generator.insert("e-invalidated-structures".into(), s_inv.to_json());
+    per_generator.insert("e-invalidated-general-space".into(), s_inv2.to_json());
+    capped |= s_inv.capped || s_inv2.capped;
     tally.parsed.fetch_add(s_ops.queries_done + s_gen.queries_done, Ordering::Relaxed);
     tally.ok.fetch_add(s_ops.compiled + s_gen.compiled, Ordering::Relaxed);
     tally.err.fetch_add(s_ops.rejected + s_gen.rejected, Ordering::Relaxed);
@@ -432,7 +461,7 @@ pub fn run(ctx: &Ctx) -> ! {
     let mut c = cov();
     c.insert("evaluations".into(), json!(tally.parsed.load(Ordering::Relaxed)));
     c.insert("distinct_nontrivial".into(), json!(tally.ok.load(Ordering::Relaxed)));
-    c.insert("rule".into(), json!("every document of four bounded-exhaustive generators (token sequences over a 19-token alphabet up to length L in 5 contexts; directive sequences up to D directives from a 36-entry menu at 3 positions; ~110 document shapes; the operand-type space and the deviation-bounded query space) is compiled by the real frontend under catch_unwind against S-verif and the repository's numbers schema; non-trivial = documents the frontend accepted (the rest received a typed error)"));
+    c.insert("rule".into(), json!("every document of four bounded-exhaustive generators (token sequences over a 19-token alphabet up to length L in 5 contexts; directive sequences up to D directives from a 36-entry menu at 3 positions; ~110 document shapes; the operand-type space and the deviation-bounded query space; the same spaces with invalidating deviations: output / tag name collisions, ill-typed filters, undefined tags, unknown properties) is compiled by the real frontend under catch_unwind against S-verif and the repository's numbers schema; non-trivial = documents the frontend accepted (the rest received a typed error)"));
     c.insert("documents_accepted".into(), json!(tally.ok.load(Ordering::Relaxed)));
     c.insert("documents_rejected_with_typed_error".into(), json!(tally.err.load(Ordering::Relaxed)));
     c.insert("documents_panicking".into(), json!(tally.panics.load(Ordering::Relaxed)));
